@@ -21,9 +21,9 @@ ENGINES = [
     {"name": "hist+faults", "path": "vlib/hist.py vlib/faults.py vlib/dbaudit.py", "serves_properties": ["C03", "C22"],
      "kind_free_text": "commit-boundary process-death injection and statement-level transient-error injection through "
                        "SQLAlchemy events, enumerated over every point of a workload"},
-    {"name": "models", "path": "vlib/checks", "serves_properties": ["C13", "C14", "C15", "C17", "C18", "C19"],
+    {"name": "models", "path": "vlib/checks", "serves_properties": ["C13", "C14", "C15", "C17", "C18", "C19", "C24", "C25", "C37"],
      "kind_free_text": "offline checkers and relation monitors over the real pure functions"},
-    {"name": "io", "path": "vlib/checks", "serves_properties": ["C16", "C34", "C35"],
+    {"name": "io", "path": "vlib/checks", "serves_properties": ["C04", "C16", "C30", "C34", "C35"],
      "kind_free_text": "round-trip / cross-process differential monitors"},
 ]
 
@@ -157,6 +157,20 @@ reg("C33", "hist", "set comparison of status-filter results with displayed statu
     "Databases with done, cached, failed, CSE-failed, replayed-failure and (by injected process death) running "
     "jobs; each status filter for jobs and executions must return exactly the rows displayed with that status.",
     HIST_NOTE)
+reg("C04", "io", "history monitor with an independent per-class validity model and an invocation trace",
+    "For each file value class a producer's cached result is kept across external deletions, truncations, rewrites "
+    "(size / mtime / same bytes), recreations and member changes; the producer must re-run whenever the value is no "
+    "longer valid, run() must never raise, and the consumer must see the producer's current output.",
+    "Local filesystem; Handle validity is covered by C25.")
+reg("C25", "models", "history + reference lineage model on the real backend, plus workflow-level edit/revert histories",
+    "Bounded advance/rollback histories (exhaustive to a length bound, random beyond) are applied to the real backend "
+    "and every state's validity compared with the lineage model after each step; chains of handle-writing tasks are "
+    "re-run after edits and reverts, and steps holding rolled-back states must execute again.",
+    "rollback traverses edges whose parent is currently valid (documented behaviour); see ASSUMPTIONS in the evidence.")
+reg("C30", "io", "op-sequence monitor on real files comparing object hashes with freshly computed ones",
+    "Sequences of redun and external file operations per value class; after redun operations the object's hash must "
+    "be fresh, is_valid() must agree with hash equality, content-hashed values must follow bytes, missing paths hash "
+    "deterministically.", "Local filesystem only.")
 
 
 def build():
